@@ -18,8 +18,13 @@ Kinds == {Kind(nm, n, b) : nm \in Names, n \in Sizes, b \in BOOLEAN} \cup {BigKi
 Models == UNION {[1..k -> Kinds] : k \in 0..MaxMembers}
 FitsGnu(ms) == \A k \in 1..Len(ms) : Len(ms[k].name) <= 15
 
-WellFormed == UNION {{[k |-> "ar", members |-> ms, gnu |-> g, bytes |-> RenderAr(ms, g)] :
-                          g \in {x \in BOOLEAN : x => FitsGnu(ms)}} : ms \in Models}
+\* via: the io.ReaderAt handed to LoadAr - the archive's own bytes, or a section of a larger buffer in which other bytes
+\* (junk, or what looks like one more member) follow the archive: the archive ends where its reader ends
+Vias == {"bytes", "section-junk", "section-member"}
+WellFormed == UNION {{[k |-> "ar", members |-> ms, gnu |-> g, bytes |-> RenderAr(ms, g), via |-> v] :
+                          g \in {x \in BOOLEAN : x => FitsGnu(ms)}, v \in (IF Len(ms) <= 1 THEN Vias ELSE {"bytes"})} : ms \in Models}
+              \cup {[k |-> "ar", members |-> ms, gnu |-> FALSE, bytes |-> RenderAr(ms, FALSE), via |-> v] :
+                          ms \in {<<Kind(DB, 1, FALSE), Kind(<<97>>, 2, FALSE)>>, <<Kind(<<97>>, 2, FALSE), Kind(DB, 1, FALSE)>>}, v \in Vias}
 
 \* ---- corruptions ----------------------------------------------------------
 SmallKinds == {Kind(nm, n, FALSE) : nm \in {<<97>>, DB}, n \in Sizes}
@@ -39,6 +44,15 @@ TruncVecs == {[k |-> "arraw", bytes |-> b] :
 GlobalMagicVecs == {[k |-> "arraw", bytes |-> [RenderAr(ms, FALSE) EXCEPT ![i] = 120]] :
                        ms \in {m \in Bases : Len(m) = 1}, i \in 1..8}
 
+\* names that other ar dialects give a meaning to (the GNU long-name table "//", references "/<offset>" into it, the
+\* symbol table "/", BSD "#1/<len>"): every ordered pair and triple of them as members - nothing must be looked up
+\* outside a member because of what a NAME says
+SpecialNames == {<<SLASH, SLASH>>, <<SLASH>>, <<SLASH, 48>>, <<SLASH, 45, 49>>, <<SLASH, 43, 49>>, <<SLASH, 57, 57, 57, 57, 57, 57, 57, 57, 57>>,
+                 <<SLASH, 120>>, <<35, 49, SLASH, 52>>, <<35, 49, SLASH, 45, 49>>, <<97>>}
+SpecialKinds == {Kind(nm, n, FALSE) : nm \in SpecialNames, n \in {0, 3}}
+SpecialVecs == {[k |-> "arraw", bytes |-> RenderAr(ms, FALSE)] :
+                   ms \in {<<a, b>> : a \in {Kind(<<SLASH, SLASH>>, 3, FALSE), Kind(<<SLASH>>, 3, FALSE), Kind(<<97>>, 3, FALSE)}, b \in SpecialKinds}
+                          \cup {<<Kind(<<SLASH, SLASH>>, 3, FALSE), a, b>> : a \in SpecialKinds, b \in {Kind(nm, 0, FALSE) : nm \in SpecialNames}}}
 ASSUME Emit(CASE Mode = "wellformed" -> SetToSeq(WellFormed)
-              [] Mode = "corrupt" -> SetToSeq(CorruptVecs \cup TruncVecs \cup GlobalMagicVecs))
+              [] Mode = "corrupt" -> SetToSeq(CorruptVecs \cup TruncVecs \cup GlobalMagicVecs \cup SpecialVecs))
 =============================================================================
